@@ -271,6 +271,15 @@ func resolverStateRule(r *Report, p *Prog, e *Effect, roots []*ssa.Function) {
 		}
 	}
 	violated := map[string]bool{}
+	// state the analysis cannot follow: a container of package sync (or an
+	// atomic box) is written through its methods, which are not store sites,
+	// and hands its contents out as interface values
+	for fv, name := range fields {
+		if c := opaqueContainer(fv.Type(), 0); c != "" {
+			violated[name] = true
+			r.bad(rule, "field "+name+": followable state", p.pos(fv.Pos()), "the resolver keeps state in a "+c+": what is stored there lives across resolutions, and values loaded from it are shared with every later call, but neither is visible to the ownership analysis (undecided; a memo of parsed dependencies kept this way let one resolution's inherited exclusions leak into the next)")
+		}
+	}
 	nStores := 0
 	for _, f := range p.Funcs {
 		for _, b := range f.Blocks {
@@ -326,6 +335,35 @@ func resolverStateRule(r *Report, p *Prog, e *Effect, roots []*ssa.Function) {
 			r.ok(rule, fnKey(root)+": global stores", p.pos(root.Pos()), "no store to a package-level variable anywhere in the call closure")
 		}
 	}
+}
+
+// opaqueContainer names a sync.Map / sync.Pool / atomic.Value / atomic.Pointer
+// held by value (directly, in an array or in an embedded struct) in t.
+func opaqueContainer(t types.Type, d int) string {
+	if d > 3 {
+		return ""
+	}
+	if n, ok := t.(*types.Named); ok && n.Obj().Pkg() != nil {
+		switch n.Obj().Pkg().Path() + "." + n.Obj().Name() {
+		case "sync.Map", "sync.Pool", "sync/atomic.Value", "sync/atomic.Pointer":
+			return n.Obj().Pkg().Path() + "." + n.Obj().Name()
+		}
+	}
+	switch u := t.Underlying().(type) {
+	case *types.Struct:
+		for i := 0; i < u.NumFields(); i++ {
+			if c := opaqueContainer(u.Field(i).Type(), d+1); c != "" {
+				return c
+			}
+		}
+	case *types.Array:
+		return opaqueContainer(u.Elem(), d+1)
+	case *types.Pointer:
+		if d == 0 {
+			return opaqueContainer(u.Elem(), d+1)
+		}
+	}
+	return ""
 }
 
 func sortedVals(m map[*types.Var]string) []string {
